@@ -51,9 +51,17 @@ RequestClauses(t) ==
 
 -----------------------------------------------------------------------------
 (* C01 on every recorded spectrum                                                                             *)
-Ledger(e) ==
-        (IF \E k \in 1..N(e) : ~Within(e.s[k] + e.a[k] + e.n[k], One, TolPpb) THEN {"Conservation"} ELSE {})
-   \cup (IF \E k \in 1..N(e) : \E x \in {e.s[k], e.a[k], e.n[k]} : x < 0 \/ x > One THEN {"SharesInUnitInterval"} ELSE {})
+\* position in p of the channel at position k of e, keyed by frequency (0 = not there)
+Where(p, e) == IF p.f = e.f THEN [k \in 1..N(e) |-> k]
+               ELSE [k \in 1..N(e) |-> IF \E j \in 1..N(p) : p.f[j] = e.f[k] THEN CHOOSE j \in 1..N(p) : p.f[j] = e.f[k] ELSE 0]
+
+\* a break is blamed on the element that produces it: a channel whose books were already wrong (or whose figure was
+\* already not a number) when the element was entered is not judged again on the elements after it
+Balanced(e, k) == Within(e.s[k] + e.a[k] + e.n[k], One, TolPpb)
+InRange(e, k)  == \A x \in {e.s[k], e.a[k], e.n[k]} : x >= 0 /\ x <= One
+Ledger(e, p, w) ==          \* p = spectrum before (p = e, w = identity for Launch / Filter: judged as they stand)
+        (IF \E k \in 1..N(e) : ~Balanced(e, k) /\ (p = e \/ w[k] = 0 \/ Balanced(p, w[k])) THEN {"Conservation"} ELSE {})
+   \cup (IF \E k \in 1..N(e) : ~InRange(e, k) /\ (p = e \/ w[k] = 0 \/ InRange(p, w[k])) THEN {"SharesInUnitInterval"} ELSE {})
 
 (* C07 on every recorded spectrum: launch = the request sorted, filter = exactly the common band, then intact  *)
 ChannelSetClauses(t, k) ==
@@ -92,16 +100,13 @@ GrammarOk(e) == CASE e.cls = "Fused"       -> Ops(e) = <<"Scale">>
                   [] e.cls = "Transceiver" -> Ops(e) = <<>>
                   [] OTHER -> FALSE
 
-\* position in p of the channel at position k of e, keyed by frequency (0 = not there)
-Where(p, e) == IF p.f = e.f THEN [k \in 1..N(e) |-> k]
-               ELSE [k \in 1..N(e) |-> IF \E j \in 1..N(p) : p.f[j] = e.f[k] THEN CHOOSE j \in 1..N(p) : p.f[j] = e.f[k] ELSE 0]
-
 Quality(p, e) ==
     LET w == Where(p, e)
         K == {k \in 1..N(e) : w[k] # 0}
         \* a figure that is not a number (NotANumber: the dB value of a negative ratio) is neither kept nor lowered
-        Same(x, y) == x # NotANumber /\ Within(x, y, TolUdb)
-        NotHigher(x, y) == x # NotANumber /\ x <= y + TolUdb
+        \* (y = the figure before: when that already was not a number the step is not judged, see Ledger)
+        Same(x, y) == y = NotANumber \/ (x # NotANumber /\ Within(x, y, TolUdb))
+        NotHigher(x, y) == y = NotANumber \/ (x # NotANumber /\ x <= y + TolUdb)
     IN  (IF GrammarOk(e) THEN {} ELSE {"OpGrammar"})
    \cup (IF \E k \in K : ~NotHigher(e.gsnr[k], p.gsnr[w[k]]) THEN {"NeverImprovesGsnr"} ELSE {})
    \cup (IF \E k \in K : ~NotHigher(e.osnr[k], p.osnr[w[k]]) THEN {"NeverImprovesOsnr"} ELSE {})
@@ -128,7 +133,8 @@ Receiver(t) ==
 
 StepClauses(t, k, b) ==
     LET e == t.ev[k]
-    IN Ledger(e) \cup ChannelSetClauses(t, k)
+        p == IF e.cls \in Elements THEN t.ev[b] ELSE e
+    IN Ledger(e, p, Where(p, e)) \cup ChannelSetClauses(t, k)
        \cup (IF e.cls \in Elements THEN Quality(t.ev[b], e) \cup MultiBand(t, k, b) ELSE {})
        \cup (IF k = Len(t.ev) /\ t.outcome = 0 THEN Receiver(t) ELSE {})
 
